@@ -42,12 +42,16 @@ def extract_mem(it, row, tabs, configs):
             for cond, taken, loc in t.path.decisions:
                 syms = [s for s in pe.sym_walk(cond) if s.op == 'unk']
                 if any(s == align for s in syms):
-                    if cond.op == '!=' and isinstance(cond.args[1], int):
-                        out.align_consts.add(cond.args[1])
+                    c0 = pe.norm_cond(cond)
+                    while c0.op == '!':
+                        c0 = pe.norm_cond(c0.args[0])
+                    if c0.op in ('!=', '==') and c0.args[0] == align and isinstance(c0.args[1], int):
+                        out.align_consts.add(c0.args[1])
                     else:
                         out.problems.append('unrecognised alignment test %r' % (cond,))
                 elif any(s == offset for s in syms):
-                    if not (cond.op == '!=' and cond.args[1] == 0):
+                    c0 = pe.norm_cond(cond)
+                    if not (c0.op == '!=' and c0.args[1] == 0):
                         out.problems.append('unrecognised offset test %r at %s' % (cond, loc))
                 else:
                     out.problems.append('decision on %r at %s' % (cond, loc))
